@@ -564,7 +564,12 @@ func coordinate(c Check, units []Unit, tier string, seed int64, nw, budget int, 
 				known = true
 				if !knownPrinted[f.Signature] {
 					knownPrinted[f.Signature] = true
-					fmt.Printf("KNOWN-FINDING: property=%s %s: %s\n", c.ID, f.Signature, f.What)
+					rf := ReplayFile{Property: c.ID, Unit: v.Unit, Params: v.Params, Signature: v.Signature, Message: v.Message, Detail: v.Detail, Replay: v.Replay, Tier: tier, Seed: seed}
+					j, _ := json.MarshalIndent(rf, "", " ")
+					h := sha256.Sum256([]byte(v.Signature))
+					path := filepath.Join(Root, "replays", fmt.Sprintf("%s-known-%s.json", c.ID, hex.EncodeToString(h[:4])))
+					os.WriteFile(path, j, 0o644)
+					fmt.Printf("KNOWN-FINDING: property=%s %s: %s [this run: unit=%s %s; replay=%s]\n", c.ID, f.Signature, f.What, v.Unit, v.Params, path)
 				}
 			}
 		}
